@@ -553,5 +553,7 @@ func main() {
 	c.Set("seeds", nSeeds)
 	c.Assume("vrf.KeyGen/vrf.Prove are the trusted prover (DESIGN 3); filippo.io/edwards25519 point/scalar arithmetic, sha512, blake2b trusted")
 	c.Assume("key seeds and message contents are representatives (VERIF_SEED rotates them); bit positions, scalar multiples and small-order encodings are enumerated completely")
+	// free-running -race pass: concurrent callers on their own inputs (state the library shares between calls)
+	c.RaceAudit("c38")
 	c.Finish()
 }
